@@ -12,6 +12,13 @@
    mass-flow / coordinates arguments of `calc_g_func_for_multiple_lengths` and as the system-flow /
    fluid arguments of `GHE(...)`, as source text.  Also the list of classes in search_routines.py
    that define `retrieve_flow` or `initialize_ghe` (a new override shows up here).
+3. `Gen.setDesignSkeleton` — the control-flow / state-update skeleton of `GHEManager.set_design` (manager.py):
+   tests, assignments (each `self._design = DesignX(...)` with its first argument, constraints argument and
+   `flow_type` keyword), returns, raises; `Gen.designWriters` — every method of manager.py that assigns
+   `self._design` or an attribute of it; `Gen.designFlowWiring` — how design.py carries the pair
+   (v_flow, flow_type) from `DesignBase.__init__` through every `Design*.__init__` to the search constructor
+   in `find_design`.  A design that survives a later `set_design`, an in-place update of its flow, a dropped
+   `flow_type=` shows up as a changed table.
 """
 from __future__ import annotations
 
@@ -186,10 +193,124 @@ def wiring(tree):
     return "\n".join(out)
 
 
+# ------------------------------------------------------------------------------- manager.set_design / design.py
+MGR_FILE = "manager.py"
+DES_FILE = "design.py"
+
+
+def _skeleton(stmts, depth, out, file):
+    """Linearised control-flow / state-update skeleton of a statement list: tests, assignments (constructor
+    calls summarised by class, first argument and flow_type keyword), returns and raises.  `print(...)`
+    statements and docstrings are dropped; anything else that could update state or leave the function
+    is kept verbatim, so an added early return or an in-place update of the design shows up."""
+    pad = "." * depth
+    for s in stmts:
+        if isinstance(s, ast.Expr) and isinstance(s.value, ast.Constant):
+            continue
+        if isinstance(s, ast.Expr) and isinstance(s.value, ast.Call) and dotted(s.value.func) == "print":
+            continue
+        if isinstance(s, ast.If):
+            out.append(f"{pad}if {ast.unparse(s.test)}")
+            _skeleton(s.body, depth + 1, out, file)
+            if s.orelse:
+                out.append(f"{pad}else")
+                _skeleton(s.orelse, depth + 1, out, file)
+        elif isinstance(s, ast.Assign):
+            tg = ",".join(ast.unparse(t) for t in s.targets)
+            v = s.value
+            if isinstance(v, ast.Call) and dotted(v.func) and dotted(v.func).startswith("Design"):
+                kw = {k.arg: ast.unparse(k.value) for k in v.keywords}
+                a0 = ast.unparse(v.args[0]) if v.args else kw.get("v_flow", "?")
+                gc = ast.unparse(v.args[8]) if len(v.args) > 8 else kw.get("geometric_constraints", "?")
+                ft = kw.get("flow_type", ast.unparse(v.args[11]) if len(v.args) > 11 else "<default>")
+                out.append(f"{pad}{tg} = {dotted(v.func)}(v_flow={a0}, geometric_constraints={gc}, flow_type={ft})")
+            elif isinstance(v, (ast.JoinedStr, ast.Constant)) and tg == "message":
+                out.append(f"{pad}message = <text>")
+            else:
+                out.append(f"{pad}{tg} = {ast.unparse(v)}")
+        elif isinstance(s, ast.Return):
+            out.append(f"{pad}return {ast.unparse(s.value) if s.value is not None else ''}".rstrip())
+        elif isinstance(s, ast.Raise):
+            name = dotted(s.exc.func) if isinstance(s.exc, ast.Call) else (dotted(s.exc) if s.exc is not None else "")
+            out.append(f"{pad}raise {name}")
+        else:
+            out.append(f"{pad}{type(s).__name__}: {ast.unparse(s)}"[:200])
+
+
+def design_tables(mgr_tree, des_tree):
+    fn = find_function(mgr_tree, "GHEManager.set_design")
+    if fn is None:
+        raise Unsupported(MGR_FILE, mgr_tree.body[0], "GHEManager.set_design not found")
+    skel = []
+    _skeleton(fn.body, 0, skel, MGR_FILE)
+    # every place of manager.py outside set_design / __init__ that assigns the design or one of its attributes
+    writers = []
+    for node in mgr_tree.body:
+        if isinstance(node, ast.ClassDef):
+            for m in node.body:
+                if isinstance(m, ast.FunctionDef):
+                    for n in ast.walk(m):
+                        tgts = n.targets if isinstance(n, ast.Assign) else [n.target] if isinstance(n, (ast.AugAssign, ast.AnnAssign)) else []
+                        for t in tgts:
+                            d = dotted(t)
+                            if d and (d == "self._design" or d.startswith("self._design.")) and f"{node.name}.{m.name}: {d}" not in writers:
+                                writers.append(f"{node.name}.{m.name}: {d}")
+    rows = []
+    base = find_function(des_tree, "DesignBase.__init__")
+    if base is None:
+        raise Unsupported(DES_FILE, des_tree.body[0], "DesignBase.__init__ not found")
+    params = [a.arg for a in base.args.args]
+    stores = []
+    for n in ast.walk(base):
+        if isinstance(n, ast.Assign) and len(n.targets) == 1 and dotted(n.targets[0]) in ("self.V_flow", "self.flow_type", "self.geometric_constraints"):
+            stores.append(f"{dotted(n.targets[0])}={ast.unparse(n.value)}")
+    rows.append(("DesignBase.__init__", [f"param[1]={params[1] if len(params) > 1 else '?'}",
+                                         f"param[12]={params[12] if len(params) > 12 else '?'}"] + sorted(stores)))
+    for node in des_tree.body:
+        if not (isinstance(node, ast.ClassDef) and node.name != "DesignBase" and node.name.startswith("Design")):
+            continue
+        cols = ["bases=" + ",".join(ast.unparse(b) for b in node.bases)]
+        init = next((m for m in node.body if isinstance(m, ast.FunctionDef) and m.name == "__init__"), None)
+        if init is not None:
+            sup = [n for n in ast.walk(init) if isinstance(n, ast.Call) and isinstance(n.func, ast.Attribute) and n.func.attr == "__init__"
+                   and isinstance(n.func.value, ast.Call) and dotted(n.func.value.func) == "super"]
+            if len(sup) != 1:
+                raise Unsupported(DES_FILE, init, f"{node.name}.__init__: expected one super().__init__ call")
+            cols.append("super.v_flow=" + _arg(sup[0], 0, "v_flow", DES_FILE))
+            cols.append("super.flow_type=" + _arg(sup[0], 11, "flow_type", DES_FILE))
+            for n in ast.walk(init):
+                if isinstance(n, ast.Assign) and len(n.targets) == 1 and dotted(n.targets[0]) in ("self.V_flow", "self.flow_type"):
+                    cols.append(f"init-overwrites {dotted(n.targets[0])}={ast.unparse(n.value)}")
+        fd = next((m for m in node.body if isinstance(m, ast.FunctionDef) and m.name == "find_design"), None)
+        if fd is None:
+            raise Unsupported(DES_FILE, node, f"{node.name}.find_design not found")
+        rets = [n for n in ast.walk(fd) if isinstance(n, ast.Return) and isinstance(n.value, ast.Call)]
+        if len(rets) != 1:
+            raise Unsupported(DES_FILE, fd, f"{node.name}.find_design: expected one `return <Search>(...)`")
+        call = rets[0].value
+        cname = dotted(call.func)
+        cols.append("search=" + str(cname))
+        cols.append("search.v_flow=" + _arg(call, 0 if cname == "RowWiseModifiedBisectionSearch" else 2, "v_flow", DES_FILE))
+        cols.append("search.flow_type=" + _arg(call, 11 if cname == "RowWiseModifiedBisectionSearch" else 12, "flow_type", DES_FILE))
+        for n in ast.walk(fd):
+            if isinstance(n, (ast.Assign, ast.AugAssign)):
+                tgs = n.targets if isinstance(n, ast.Assign) else [n.target]
+                if any(not isinstance(t, ast.Name) for t in tgs):   # a state update (locals such as `title` are not)
+                    cols.append("find_design-assigns " + ast.unparse(n)[:80])
+        rows.append((node.name, cols))
+    out = ["def setDesignSkeleton : List String := [\n  " + ",\n  ".join(_lean_str(x) for x in skel) + "\n]\n"]
+    out.append("def designWriters : List String := [" + ", ".join(_lean_str(w) for w in writers) + "]\n")
+    out.append("def designFlowWiring : List (String × List String) := [")
+    out.append(",\n".join(f"  ({_lean_str(q)}, [{', '.join(_lean_str(c) for c in cols)}])" for q, cols in rows))
+    out.append("]\n")
+    return "\n".join(out)
+
+
 def main(write, HEADER, parse, PKG):
-    out = [HEADER.format(src=f"{GHE_FILE}, {SR_FILE} (translate/gen_flow.py)"),
+    out = [HEADER.format(src=f"{GHE_FILE}, {SR_FILE}, {MGR_FILE}, {DES_FILE} (translate/gen_flow.py)"),
            "import GHEVerif.Model.Py\nnamespace GHEVerif.Gen\nopen GHEVerif\n"]
     out.append(base_ghe_slice(parse(GHE_FILE)))
     out.append(wiring(parse(SR_FILE)))
+    out.append(design_tables(parse(MGR_FILE), parse(DES_FILE)))
     out.append("end GHEVerif.Gen\n")
     write("Flow.lean", "\n".join(out))
